@@ -207,7 +207,7 @@ func init() {
 			"tables happens in one critical section; R-MUSTPASS - every exit of the read loop has cleared the running flag since the last read; R-PAIR - the result store is " +
 			"followed by Signal in the same critical section and Wait is guarded by a test of the condition; R-WG - Add dominates each go whose goroutine calls Done, Done is " +
 			"reached on every exit, Close cancels the context before every wait; R-BLOCKLOCK - no blocking operation under the client mutex except the encoder write (one " +
-			"documented exception). R-IDLECHECK - every path from one Decode of the read loop to the next passes the call that clears the running flag when nothing is pending. R-BLOCKLOCK has no exception any more: the signal hand-over under the mutex is a demonstrated deadlock (known finding). R-ONEDECODER - the client has exactly one CBOR stream decoder, created in its constructor. NOT decided: liveness under all schedules as such; deadlocks that need reasoning about the peer.",
+			"documented exception). R-IDLECHECK - every path from one Decode of the read loop to the next passes the call that clears the running flag when nothing is pending. R-BLOCKLOCK has no exception: the signal hand-over under the mutex was a demonstrated deadlock and is repaired; R-SIGCHAN checks that every send on / close of a caller's signal channel is confined to the read loop's goroutine; R-PAIR also requires an inserted pending entry to be awaited or removed on every path. R-ONEDECODER - the client has exactly one CBOR stream decoder, created in its constructor. NOT decided: liveness under all schedules as such; deadlocks that need reasoning about the peer.",
 		Assumptions: []string{"sync.Cond has no spurious wake-ups (Go semantics)", "the peer behaves correctly (property premise)"},
 		Rules: []func(*Ctx){
 			func(c *Ctx) { c.rulePairInsert("R-PAIR") },
@@ -224,7 +224,7 @@ func init() {
 	register(&PropSpec{
 		ID: "C07",
 		Explanation: "Decided: R-CHAN - no goroutine can send on the error channel after its close (close must be joined with all sending goroutines), the report loop only " +
-			"stops when the channel is closed, no report is sent non-blockingly, and the client's signal channels are closed/sent under one discipline; R-RECOVER - every " +
+			"stops when the channel is closed or hands over to a deferred drain that keeps receiving until then, no report is sent non-blockingly, and the client's signal channels are closed/sent under one discipline; R-RECOVER - every " +
 			"goroutine that runs step code does so below a recover scope; R-EXACTLYONE - every path of the step runner, including the panic path through the recover handler, " +
 			"emits exactly one terminal message; R-WG for the server goroutines; R-MAPNIL - unknown step / signal IDs cannot be dereferenced (server side of C11). " +
 			"R-DECODEEXIT - the failure branch of a Decode inside a message loop cannot lead back to it; R-RECOVER covers CallSignal as well as CallStep. R-FRESHDEC - the target of every Decode inside a message loop is allocated per iteration (a message that omits a field cannot inherit the previous message's). NOT decided: byte-level behaviour of the CBOR decoder on truncated input; behaviour of user step code.",
@@ -294,8 +294,8 @@ func init() {
 	register(&PropSpec{
 		ID: "C10",
 		Explanation: "Decided: R-EXPLICIT without the well-formedness assumptions - every explicit panic reachable from UnserializeSchema / UnserializeScope / ReadSchema or from the " +
-			"data API is classified; a guard that depends only on schema state which a received description can produce is a violation (14 such sites are genuine, demonstrated " +
-			"defects recorded as known findings, each keyed separately so a new panic path is still reported); R-FORWARD - the loaders link every scope they return; " +
+			"data API is classified; a guard that depends only on schema state which a received description can produce is a violation (12 such sites, all on first use of an accepted description, are genuine, demonstrated " +
+			"defects recorded as known findings; the loaders themselves recover linking panics, each keyed separately so a new panic path is still reported); R-FORWARD - the loaders link every scope they return; " +
 			"R-ASSERT - the loaders' own type assertions are justified by the meta-root argument. Also decided: R-DIVZERO, R-MUSTCALL (no Must* constructor on run-time patterns), R-TERM (recursion through received references: 3 demonstrated stack overflows are known findings). NOT decided: semantic usability of an accepted description; panics from " +
 			"reflection inside the struct mapper (covered by its recover scope).",
 		Assumptions: []string{"table entries produced by the struct mapper are non-nil (A2 holds for wire-built schemas too)"},
@@ -346,7 +346,7 @@ func init() {
 			"one TypeID) or lies in data mode; R-OVERLAP - the range comparisons are in normal form (reject iff other.min > self.max or other.max < self.min) and, by " +
 			"enumeration of all acyclic paths from the point where both schemas' bounds are available, every accepting path has decided both bound pairs (nil bound or " +
 			"comparison with the accepting outcome) - for all combinations of present/absent bounds; R-MUSTUSE - every kind with min/max consults them in schema mode (the " +
-			"list kind does not: known finding); R-NILGUARD - optional bounds are dereferenced only under their own nil guard; R-MAPORDER - the verdict does not depend on " +
+			"list kind did not: found and repaired); R-NILGUARD - optional bounds are dereferenced only under their own nil guard; R-MAPORDER - the verdict does not depend on " +
 			"map iteration order. R-TERM (schema mode) - every reference-dereference cycle below a schema-mode hand-over is unbounded (demonstrated known finding); R-EFFECT - no write to shared state during a comparison. NOT decided: reflexivity as a value-level statement, completeness of the catalogue " +
 			"of rejections beyond kind, bounds and the loops' verdict classes.",
 		Assumptions: []string{wellFormed},
@@ -392,7 +392,7 @@ func init() {
 			"schema type originates as a *ConstraintError (origins in schema-mode compatibility code, reached only when the argument is itself a schema, are listed, not " +
 			"claimed); R-PATHSEG - wherever the failure of a child operation decides a rejecting return, the returned error is the child's error itself or that error " +
 			"passed through ConstraintErrorAddPathSegment; a container returning an element's error inside its loop without a segment, or any function replacing the child's " +
-			"error by a newly built one, is a violation (3 genuine re-wraps on the one-of Validate path are known findings). R-VALSTRING - reflect.Value.String() only under a Kind()==String fact or on a Convert to a string type. NOT decided: that the segment text equals the " +
+			"error by a newly built one, is a violation (3 genuine re-wraps on the one-of Validate path were found and repaired). R-VALSTRING - reflect.Value.String() only under a Kind()==String fact or on a Convert to a string type. NOT decided: that the segment text equals the " +
 			"user's key spelling; the order of segments (the prepend in AddPathSegment is value-level).",
 		Rules: []func(*Ctx){
 			func(c *Ctx) { c.ruleValueString("R-VALSTRING", c.scopePkg("schema")) },
